@@ -259,40 +259,85 @@ theorem acc_case (c : Ctx) (hign : c.ign = true) (k : String)
 
 /-! ### `{$op: "$path"}`: one operand that is not written as a list -/
 
-theorem acc_mode_str (k : String) (hk : k = "$sum" ∨ k = "$avg" ∨ k = "$min" ∨ k = "$max")
-    (s : String) : mode k (.str s) = .whole := by
-  rcases hk with rfl | rfl | rfl | rfl <;>
+theorem acc_mode_bare (k : String) (hk : k = "$sum" ∨ k = "$avg" ∨ k = "$min" ∨ k = "$max")
+    (v : Val) (ha : v.isArr = false) : mode k v = .whole := by
+  rcases hk with rfl | rfl | rfl | rfl <;> cases v <;> simp [Val.isArr] at ha <;>
     simp [mode, dateOps, datePartOps, wholeOps, unaryArithOps, groupingOps, hasTzKeys]
+
+theorem acc_eval_bare (c : Ctx) (k : String)
+    (hk : k = "$sum" ∨ k = "$avg" ∨ k = "$min" ∨ k = "$max") (v : Val) (ha : v.isArr = false) :
+    eval c (.doc [(k, v)]) = (eval c v).bind (applyWhole c.ign k) := by
+  have hcls : classify k = .project := by rcases hk with rfl | rfl | rfl | rfl <;> decide
+  exact eval_whole c k v .project hcls (by simp) (by simp) (by simp) (acc_mode_bare k hk v ha) ha
+    (by rcases hk with rfl | rfl | rfl | rfl <;> decide)
 
 /-- an operand whose value is an array: the operator ranges over its elements -/
 theorem acc_bare_eval (c : Ctx) (hign : c.ign = true) (k : String)
-    (hk : k = "$sum" ∨ k = "$avg" ∨ k = "$min" ∨ k = "$max") (s : String) (ys : List Val)
-    (h1 : eval c (.str s) = .ok (some (.arr ys)))
+    (hk : k = "$sum" ∨ k = "$avg" ∨ k = "$min" ∨ k = "$max") (v : Val) (ha : v.isArr = false)
+    (ys : List Val) (h1 : eval c v = .ok (some (.arr ys)))
     (hr : strictReasons k (ys.map some) = []) :
-    eval c (.doc [(k, .str s)]) = (accS k (ys.map some)).map some := by
-  have hcls : classify k = .project := by rcases hk with rfl | rfl | rfl | rfl <;> decide
+    eval c (.doc [(k, v)]) = (accS k (ys.map some)).map some := by
   have hp := acc_eq k hk (ys.map some) hr
   rw [nulled_some] at hp
-  rw [eval_whole c k (.str s) .project hcls (by simp) (by simp) (by simp) (acc_mode_str k hk s), h1,
-    hign]
+  rw [acc_eval_bare c k hk v ha, h1, hign]
   rcases hk with rfl | rfl | rfl | rfl <;>
     simp [Except.bind, applyWhole, unaryArithOps, dateOps, datePartOps, groupingOps,
       groupingOnValue, hp]
 
+theorem strictReasons_single (k : String) (hk : k = "$sum" ∨ k = "$avg" ∨ k = "$min" ∨ k = "$max")
+    (x : Option Val) : strictReasons k [x] = [] := by
+  rcases hk with rfl | rfl | hk
+  · simp [strictReasons, arithOps]
+  · simp [strictReasons, arithOps]
+  · rw [acc_strictReasons_minmax k hk]
+    have h0 : presentOf ([] : List (Option Val)) = [] := rfl
+    cases x with
+    | none => rw [presentOf_none, h0]; simp [pairwiseReasons]
+    | some w => cases hw : isNull w with
+      | true =>
+        have : w = .null := by cases w <;> simp [isNull] at hw; rfl
+        subst this
+        rw [presentOf_null, h0]; simp [pairwiseReasons]
+      | false => rw [presentOf_some w [] hw, h0]; simp [pairwiseReasons]
+
+theorem applyWhole_acc (ign : Bool) (k : String)
+    (hk : k = "$sum" ∨ k = "$avg" ∨ k = "$min" ∨ k = "$max") (w : Val) :
+    applyWhole ign k (some w) = (groupingOnValue k w).map some := by
+  rcases hk with rfl | rfl | rfl | rfl <;>
+    simp [applyWhole, unaryArithOps, dateOps, datePartOps, groupingOps]
+
+theorem groupingOnValue_val (k : String) (hk : (k = "$first" || k = "$last") = false) (x : Val)
+    (hx : x.isArr = false) : groupingOnValue k x = groupingInExpr k [x] := by
+  cases x <;> simp [Val.isArr] at hx <;> simp [groupingOnValue, hk]
+
+/-- an operand whose value is not an array (it used to be iterated over, a TypeError for numbers:
+    part of finding `scalararg`): it is the one value the operator ranges over -/
+theorem acc_bare_eval_val (c : Ctx) (k : String)
+    (hk : k = "$sum" ∨ k = "$avg" ∨ k = "$min" ∨ k = "$max") (v : Val) (ha : v.isArr = false)
+    (x : Val) (hx : x.isArr = false) (h1 : eval c v = .ok (some x)) :
+    eval c (.doc [(k, v)]) = (accS k [some x]).map some := by
+  have hp := acc_eq k hk [some x] (strictReasons_single k hk (some x))
+  have hn : nulled [some x] = [x] := rfl
+  rw [hn] at hp
+  have hfl : (k = "$first" || k = "$last") = false := by
+    rcases hk with rfl | rfl | rfl | rfl <;> decide
+  rw [acc_eval_bare c k hk v ha, h1]
+  simp only [Except.bind]
+  rw [applyWhole_acc c.ign k hk x, groupingOnValue_val k hfl x hx, hp]
+
 theorem acc_bare_case (c : Ctx) (hign : c.ign = true) (k : String)
-    (hk : k = "$sum" ∨ k = "$avg" ∨ k = "$min" ∨ k = "$max") (s : String) (ys : List Val)
-    (h1 : eval c (.str s) = .ok (some (.arr ys)))
+    (hk : k = "$sum" ∨ k = "$avg" ∨ k = "$min" ∨ k = "$max") (v : Val) (ha : v.isArr = false)
+    (ys : List Val) (h1 : eval c v = .ok (some (.arr ys)))
     (hr : strictReasons k (ys.map some) = []) (w : Val) (hs : accS k (ys.map some) = .ok w) :
-    eval c (.doc [(k, .str s)]) = .ok (some w) := by
-  rw [acc_bare_eval c hign k hk s ys h1 hr, hs]; rfl
+    eval c (.doc [(k, v)]) = .ok (some w) := by
+  rw [acc_bare_eval c hign k hk v ha ys h1 hr, hs]; rfl
 
 /-- a missing bare operand makes the whole expression missing (finding `accbaremissing`: the rules
     say 0 for `$sum`, null for the others) -/
 theorem acc_bare_missing (c : Ctx) (k : String)
-    (hk : k = "$sum" ∨ k = "$avg" ∨ k = "$min" ∨ k = "$max") (s : String)
-    (h1 : eval c (.str s) = .ok none) : eval c (.doc [(k, .str s)]) = .ok none := by
-  have hcls : classify k = .project := by rcases hk with rfl | rfl | rfl | rfl <;> decide
-  rw [eval_whole c k (.str s) .project hcls (by simp) (by simp) (by simp) (acc_mode_str k hk s), h1]
+    (hk : k = "$sum" ∨ k = "$avg" ∨ k = "$min" ∨ k = "$max") (v : Val) (ha : v.isArr = false)
+    (h1 : eval c v = .ok none) : eval c (.doc [(k, v)]) = .ok none := by
+  rw [acc_eval_bare c k hk v ha, h1]
   rcases hk with rfl | rfl | rfl | rfl <;>
     simp [Except.bind, applyWhole, unaryArithOps, dateOps, datePartOps, groupingOps]
 
